@@ -136,11 +136,13 @@ let seccharset () =
 
 let inventory () =
   List.iter (fun w ->
-      Printf.printf "writer %s %s %d filtered=%s worklog=%s notes=%s safe=%s known=%s\n"
+      Printf.printf "writer %s %s %d modematch=%s filtered=%s redacts_in_notes=%s worklog=%s notes=%s safe=%s\n"
         (string_of_bytes w.w_file) (string_of_bytes w.w_fn) (int_of_n w.w_prim)
-        (bool_s w.w_filtered) (bool_s w.w_src_worklog) (bool_s w.w_src_notes)
-        (bool_s (safe_writer w)) (bool_s (known_unsafe w))) note_writers;
+        (match w.w_arms with Some _ -> "1" | None -> "0")
+        (bool_s (w_filtered w)) (bool_s (w_redacts_in_notes w)) (bool_s w.w_src_worklog) (bool_s w.w_src_notes)
+        (bool_s (safe_writer w))) note_writers;
   Printf.printf "inventory_ok %s\n" (bool_s (inventory_ok note_writers));
+  Printf.printf "inventory_notes_ok %s\n" (bool_s (inventory_notes_ok note_writers));
   Printf.printf "unsafe %d\n" (List.length (unsafe_writers note_writers))
 
 let () = run_driver
